@@ -136,17 +136,19 @@ TPRejected ==
   /\ UNCHANGED <<ips, jadds, nats>>
   /\ Adv
 
+(* "aborted": the peer hung up while the response was being written (the harness's writer fails after
+   a number of bytes); the handler has done everything else, only the response is not observed. *)
 TPResp ==
   /\ Is("p.resp") /\ ppc[Ev.p] # "idle"
   /\ Ev.refused = FALSE
   /\ ProxyRespond(Ev.p)
-  /\ presp'[Ev.p].kind = Ev.kind
+  /\ (Ev.kind # "aborted" => presp'[Ev.p].kind = Ev.kind)
   /\ (Ev.kind = "offer" => /\ Ev.exact = TRUE                        \* the offer text arrives unchanged
                            /\ presp'[Ev.p].client = Ev.client
                            /\ presp'[Ev.p].nat = Ev.nat
                            /\ presp'[Ev.p].relay = Ev.relay)
-  /\ cnt' = [cnt EXCEPT !.idle = @ + (IF Ev.kind = "nomatch" THEN 1 ELSE 0)]
-  /\ pcnt' = Bump(pcnt, ProxyPollKey(pnat[Ev.p], IF Ev.kind = "nomatch" THEN "idle" ELSE "matched"))
+  /\ cnt' = [cnt EXCEPT !.idle = @ + (IF ppc[Ev.p] = "gotNil" THEN 1 ELSE 0)]
+  /\ pcnt' = Bump(pcnt, ProxyPollKey(pnat[Ev.p], IF ppc[Ev.p] = "gotNil" THEN "idle" ELSE "matched"))
   /\ UNCHANGED <<ips, jadds, nats>>
   /\ Adv
 
@@ -178,12 +180,13 @@ TCCleanup == Is("c.cleanup") /\ LockOK /\ claimed[Ev.c] = Ev.p /\ ClientCleanup(
    or the whole (match-free) handling of a poll the broker refuses up front. *)
 TCResp ==
   /\ Is("c.resp")
-  /\ \/ /\ cpc[Ev.c] = "done" /\ cresp[Ev.c].kind = Ev.kind
+  /\ \/ /\ cpc[Ev.c] = "done" /\ Ev.kind = "aborted" /\ UNCHANGED vars
+     \/ /\ cpc[Ev.c] = "done" /\ cresp[Ev.c].kind = Ev.kind
         /\ (Ev.kind = "answer" => cresp[Ev.c].answer = Ev.a /\ Ev.exact = TRUE)   \* the answer text arrives unchanged
         /\ UNCHANGED vars
      \/ /\ cpc[Ev.c] = "idle" /\ Ev.fp \notin Bridges
         /\ ClientMatch(Ev.c, Ev.natwire, Ev.fp)
-        /\ Ev.kind = "http500"
+        /\ Ev.kind \in {"http500", "aborted"}
   /\ Keep /\ Adv
 
 TALookup ==
